@@ -197,6 +197,16 @@ private:
         if (code == control_code_e::publish)
             return true;
 
+        // a Server never sends these to a connected Client
+        if (
+            code == control_code_e::connect ||
+            code == control_code_e::connack ||
+            code == control_code_e::subscribe ||
+            code == control_code_e::unsubscribe ||
+            code == control_code_e::pingreq
+        )
+            return false;
+
         auto res = control_byte & 0b00001111;
         if (code == control_code_e::pubrel)
             return res == 0b00000010;
